@@ -482,6 +482,13 @@ func runOrchestrate(t *testing.T) {
 				continue
 			}
 			fmt.Fprintf(os.Stderr, "worker %d produced no stats (err=%v):\n%s\n", i, r.err, tail(r.log, 4000))
+			if b, err := os.ReadFile(cur); err == nil {
+				// keep the case the worker was running (watchdog / harness trouble) for investigation
+				kp := filepath.Join(*fVerifDir, "bin", fmt.Sprintf("stuck-%s-w%d.json", s.Prop, i))
+				_ = os.WriteFile(kp, b, 0o644)
+				_ = os.WriteFile(kp+".log", []byte(r.log), 0o644)
+				fmt.Fprintf(os.Stderr, "note: the case that worker was running is kept in %s (full log next to it)\n", kp)
+			}
 			trouble = true
 			continue
 		}
